@@ -67,24 +67,22 @@
 (* if every squared column norm stays below 2^28; the trace spec picks the *)
 (* finest admissible scale of the event.                                   *)
 (***************************************************************************)
-EXTENDS Integers, Sequences
+EXTENDS Integers, Sequences, SequencesExt
 
 PcSlack == 2
 
 PcAbs(a) == IF a < 0 THEN -a ELSE a
 RECURSIVE PcP2(_)
 PcP2(k) == IF k <= 0 THEN 1 ELSE 2 * PcP2(k - 1)
-RECURSIVE PcSumFrom(_, _)
-PcSumFrom(s, i) == IF i > Len(s) THEN 0 ELSE s[i] + PcSumFrom(s, i + 1)
-PcSum(s) == PcSumFrom(s, 1)
+\* sum of an integer sequence (SequencesExt!FoldLeft: linear time and no deep recursion, so
+\* that columns of a thousand rows are affordable)
+PcSum(s) == FoldLeft(LAMBDA a, b : a + b, 0, s)
 PcDot(a, b) == PcSum([k \in 1..Len(a) |-> a[k] * b[k]])
 PcAbsSum(s) == PcSum([k \in 1..Len(s) |-> PcAbs(s[k])])
 PcCol(M, j) == [i \in 1..Len(M) |-> M[i][j]]
 PcNCols(M) == Len(M[1])
 PcMax(a, b) == IF a > b THEN a ELSE b
-RECURSIVE PcMaxAbsFrom(_, _)
-PcMaxAbsFrom(s, i) == IF i > Len(s) THEN 0 ELSE PcMax(PcAbs(s[i]), PcMaxAbsFrom(s, i + 1))
-PcMaxAbs(s) == PcMaxAbsFrom(s, 1)
+PcMaxAbs(s) == FoldLeft(LAMBDA a, b : PcMax(a, PcAbs(b)), 0, s)
 PcMaxAbsM(M) == PcMaxAbs([i \in 1..Len(M) |-> PcMaxAbs(M[i])])
 
 \* saturating arithmetic for the range guard (arguments >= 0)
@@ -96,11 +94,15 @@ PcSatMul(a, b) == IF a = 0 \/ b = 0 THEN 0
 
 \* ------------------------------------------------- exact data
 PcColSum(X, j) == PcSum(PcCol(X, j))
-PcCentred(X) ==                                     \* C = m X - colsum  (m x p integers)
-    LET m == Len(X) p == PcNCols(X)
-        s == [j \in 1..p |-> PcColSum(X, j)] IN
-    [i \in 1..m |-> [j \in 1..p |-> m * X[i][j] - s[j]]]
-PcVarN2(X, j) == Len(X) * PcDot(PcCol(X, j), PcCol(X, j)) - PcColSum(X, j) * PcColSum(X, j)
+\* (the column sums are an operator *argument* of the constructor below: a LET inside the
+\* function constructor would be re-evaluated for every entry)
+PcCentredWith(X, s) == [i \in 1..Len(X) |-> [j \in 1..PcNCols(X) |-> Len(X) * X[i][j] - s[j]]]
+PcColSums(X) == [j \in 1..PcNCols(X) |-> PcColSum(X, j)]
+PcCentred(X) == PcCentredWith(X, PcColSums(X))      \* C = m X - colsum  (m x p integers)
+\* V_j = m sum x^2 - (sum x)^2, computed on the deviations from the first row (the value is
+\* shift invariant; the deviations keep the intermediate products small for long columns
+\* with large means)
+PcVarN2(X, j) == LET d == [i \in 1..Len(X) |-> X[i][j] - X[1][j]] IN Len(X) * PcDot(d, d) - PcSum(d) * PcSum(d)
 
 \* squared norm of column a of a fixed-point matrix (units 4^-S) and its quantisation error
 PcEnergy(Y, a)    == PcDot(PcCol(Y, a), PcCol(Y, a))
